@@ -660,3 +660,11 @@ Definition ntp_req_ok (b0 : Z) : bool :=
   let li := b0 / 64 in let vn := (b0 / 8) mod 8 in let mode := b0 mod 8 in
   ((li =? 0) || (li =? 3)) && (1 <=? vn) && (vn <=? 4) &&
   (if vn =? 1 then mode =? 0 else mode =? 3).
+
+(* the strict reading of "any change to ... the ciphertext ... is rejected" for a
+   datagram that was shortened: only a datagram that is byte for byte the one an
+   honest sender sealed (for this receiver) may be accepted / answered *)
+Definition C10_exact_ok (hs : list honest) (b key : bytes) (dir : Z) (reqid : bytes) (accepted : bool) : bool :=
+  if accepted then existsb (is_honest b key dir reqid) hs else true.
+Definition C10_exact_listener_ok (hs : list honest) (b : bytes) (replied : bool) : bool :=
+  if replied then existsb (fun h => (h_dir h =? 0) && bytes_eqb (h_bytes h) b) hs else true.
